@@ -12,13 +12,7 @@ func (vc *VC) mapKeyTerm(k Val) Term {
 		vc.decls.Fun("ikey", []Sort{SInt, SInt}, SInt)
 		vc.decls.Fun("ikey.tag", []Sort{SInt}, SInt)
 		vc.decls.Fun("ikey.val", []Sort{SInt}, SInt)
-		t := App(SInt, "ikey", k.Tag, k.T)
-		f := "ikey:" + t.S
-		if !vc.facts[f] {
-			vc.facts[f] = true
-			vc.assumeRaw(And(Eq(App(SInt, "ikey.tag", t), k.Tag), Eq(App(SInt, "ikey.val", t), k.T)))
-		}
-		return t
+		return App(SInt, "ikey", k.Tag, k.T)
 	case KStruct:
 		vc.unsupported("struct-valued map key")
 		return vc.freshInt("structkey")
@@ -135,8 +129,8 @@ func (vc *VC) loadElem(st *State, s Val, idx Term, et types.Type) Val {
 }
 
 func (vc *VC) strSub(s, lo, hi Term) Term {
-	vc.decls.Fun("str.sub", []Sort{SStr, SInt, SInt}, SStr)
-	t := App(SStr, "str.sub", s, lo, hi)
+	vc.decls.Fun("gstr.sub", []Sort{SStr, SInt, SInt}, SStr)
+	t := App(SStr, "gstr.sub", s, lo, hi)
 	f := "sub:" + t.S
 	if !vc.facts[f] {
 		vc.facts[f] = true
